@@ -1,5 +1,6 @@
 import Driver.Proto
 import Gotree.Spec.C18
+import Gotree.Model.C18Read
 
 namespace Gotree.Driver.C18
 open Gotree Gotree.Driver Gotree.C18
@@ -161,6 +162,63 @@ def site (name : String) (params : List String) (entries : List (List String)) (
       judge (tags ++ tagIf (run List.reverse == model) "iteration-order-irrelevant" ++ tagIf (model.length ≥ 8) "many-mutations" ++
         tagIf (spec == model) "model-meets-leaf-spec")
         impl spec model "CountMutations (character distributions)"
+  | "readmap" =>
+    -- cmd/root.go readMapFile + Tree.Rename through `gotree rename -m file [-r]`.
+    -- params: "revert"/"forward", then "T:name" / "I:name" per node in Nodes() order; entries: one [line] per line of the file
+    let revert := params.headD "" == "revert"
+    let nodes := params.drop 1
+    let isTip := nodes.map (·.startsWith "T:")
+    let names := nodes.map (fun x => (x.drop 2).toString)
+    let lines := entries.map (·.headD "")
+    let model := match renameFromFile revert lines names isTip with
+      | none => ["err"]
+      | some after => "ok" :: after
+    -- Spec on the FILE (no map): a named node gets the value of the last line that binds its name
+    let ents := lines.map (mapFileEntry revert)
+    let after := names.map (fun n => if n == "" then n else (lastBinding (mapFileEntry revert) lines none n).getD n)
+    let dupNames := (names.filter (· != "")).eraseDups.length != (names.filter (· != "")).length
+    let tipsAfter := (after.zip isTip).filterMap (fun e => if e.2 then some e.1 else none)
+    let spec := if ents.any (·.isNone) || dupNames || tipsAfter.eraseDups.length != tipsAfter.length then ["err"] else "ok" :: after
+    let keyCol := ents.filterMap (·.map (·.1))
+    let nodupRead := match readMapFile revert lines with | .ok m => nodupKeys m | .error _ => true
+    judge (["site:readmap"] ++ tagIf (lines.length ≥ 8) "nontrivial" ++ tagIf revert "revert" ++
+      tagIf (keyCol.eraseDups.length != keyCol.length) "repeated-key" ++ tagIf (ents.any (·.isNone)) "bad-line" ++
+      tagIf (impl == ["err"]) "rename-err" ++ tagIf nodupRead "read-map-nodupkeys" ++
+      tagIf (keyCol.any (fun k => names.contains k)) "binds-a-node") impl spec model "rename -m (readMapFile, then Rename)"
+  | "tipstates" =>
+    -- cmd/acr.go parseTipStates through `gotree acr --states file --algo none`: the state written on each tip of the output tree.
+    -- params: the tip names; entries: one [line] per line of the states file
+    let lines := entries.map (·.headD "")
+    let model := match parseTipStates lines with
+      | .error _ => ["err"]
+      | .ok m => if params.any (fun t => (get m t).isNone) then ["err"] else tipStateLines m params
+    let ents := lines.map (twoCols isTabOrComma)
+    let spec := if ents.any (·.isNone) || params.any (fun t => (lastBinding (twoCols isTabOrComma) lines none t).isNone) then ["err"]
+      else (sortS params).map (fun t => t ++ "," ++ (lastBinding (twoCols isTabOrComma) lines none t).getD "" ++ "\n")
+    let keyCol := ents.filterMap (·.map (·.1))
+    judge (["site:tipstates"] ++ tagIf (lines.length ≥ 8) "nontrivial" ++
+      tagIf (keyCol.eraseDups.length != keyCol.length) "repeated-key" ++ tagIf (ents.any (·.isNone)) "bad-line" ++
+      tagIf (lines.any (·.contains ',')) "comma-separated" ++ tagIf (impl == ["err"]) "acr-err") impl spec model "acr --states (parseTipStates)"
+  | "renameauto" =>
+    -- cmd/rename.go --auto: tree.RenameAuto over the trees of the file sharing counter and map, then writeNameMap.
+    -- params: [which ("tips" / "internal" / "both"), length]; entries: per tree [index, "T:name" / "I:name" …] in Nodes() order;
+    -- impl: per tree written, its names joined by "|"; then "--map--" and the lines of the map file, or "--failed--"
+    let which := params.headD ""
+    let internals := which == "internal" || which == "both"
+    let tips := which == "tips" || which == "both"
+    let length := ((params.drop 1).headD "").toNat?.getD 10
+    let trees : List (List (String × Bool)) := entries.map (fun e => (e.drop 1).map (fun x => ((x.drop 2).toString, x.startsWith "T:")))
+    let r := renameAutoCmd internals tips length trees
+    let model := r.1.map (fun names => "|".intercalate names) ++
+      (match r.2 with | some ls => "--map--" :: ls | none => ["--failed--"])
+    let mapNodup := match renameAutoMap internals tips (if length < 5 then 5 else length) trees 1 [] with
+      | some m => nodupKeys m | none => true
+    let tags := ["site:renameauto", "which:" ++ which] ++ tagIf (trees.length ≥ 2 && model.length ≥ 8) "nontrivial" ++
+      tagIf (length < 5) "length-clamped" ++ tagIf r.2.isNone "auto-failed" ++ tagIf mapNodup "auto-map-nodupkeys" ++
+      tagIf (trees.any (fun t => t.any (fun n => !n.2 && n.1 == ""))) "unnamed-inner"
+    if impl.headD "" == "PANIC" then ⟨.oracle, tags, "the library call of the site case panicked: " ++ " ".intercalate impl⟩
+    else if model != impl then ⟨.tie, tags, "rename --auto: the model gives " ++ showStrList model ++ " but the implementation produced " ++ showStrList impl⟩
+    else ⟨.pass, tags, ""⟩
   | _ => bad ("C18.site: unknown site " ++ name)
 
 def handle (op : String) (f : List String) : Verdict :=
